@@ -581,6 +581,6 @@ theorem modCh_evst {s : St} (h : Inv s) {i : Nat} (hi : i < 9) {f : Channel → 
 theorem switchChannel_evst {s : St} (h : Inv s) {chan : Nat} (hi : chan < 9) (new : Nat) :
     EvSt s (s.switchChannel chan new) := by
   unfold St.switchChannel
-  exact (modCh_evst h hi (f := fun ch => wordBreak ch true) (fun ch _ hc => wordBreak_ev hc true)).congr rfl
+  exact (modCh_evst h hi (f := fun ch => wordBreak ch true) (fun ch _ hc => wordBreak_ev hc true)).congr (setCurr_chans _ _)
 
 end Zvbi.Cc
